@@ -361,9 +361,9 @@ theorem nonWs_wrap (st : PState) (s : List Char) : nonWs (wrap st s).text = nonW
   · simp [nonWs_newlinePiece]
 
 def Frag.chars : Frag → List Char
-  | .raw s => s | .wrap s => s | .str s => s
+  | .raw s => s | .wrap s => s | .str s _ => s
 def Frag.isStr : Frag → Bool
-  | .str _ => true | _ => false
+  | .str _ _ => true | _ => false
 
 /-- the layout engine, for EVERY line length / indent / start position and every list of `raw`/`wrap` fragments: the
 non-blank characters of the output are exactly those of the fragments, in order — wrapping only moves white space -/
@@ -380,7 +380,7 @@ theorem C07_layout_nonspace (fs : List Frag) (hfs : ∀ f ∈ fs, f.isStr = fals
     cases f with
     | raw s => simp [step, text_raw, nonWs_append, Frag.chars, List.append_assoc]
     | wrap s => simp [step, nonWs_wrap, nonWs_append, Frag.chars, List.append_assoc]
-    | str s => simp [Frag.isStr] at hf
+    | str s p => simp [Frag.isStr] at hf
 
 /-- `nextBreakpoint` cuts the string into consecutive pieces: nothing is lost, duplicated or reordered -/
 theorem C07_splitDots_flatten : ∀ s : List Char, (splitDots s).flatten = s := by
@@ -426,9 +426,9 @@ splitting itself uses) the characters of the string come out exactly once and in
 Partial: blanks, '+' and apostrophes *inside* the string are not tracked by this statement (the apostrophes are covered by
 `C07_string_roundtrip`, the pieces by `C07_splitDots_flatten`) -/
 theorem C07_breakLongStr_chars_partial (st : PState) (s : List Char) :
-    payload (breakLongStr st s).text = payload st.text ++ payload (escQ s) := by
+    payload (breakLongStr st s false).text = payload st.text ++ payload (escQ s) := by
   unfold breakLongStr
-  simp only []
+  simp only [splitParen, Bool.false_and]
   split
   · split <;> simp [text_raw, payload_append, payload, isSepChar]
   · rw [text_raw, payload_append, payload_breakPieces, C07_splitDots_flatten]
@@ -484,17 +484,33 @@ theorem splitDots_eq_nil (s : List Char) (h : splitDots s = []) : s = [] := by
   rw [h] at this
   simpa using this.symm
 
-/-- `breakLongStr`, for every state (line length, indent, position) and every string, character for character:
-either the literal is printed in one piece `'…'` (after at most one blank), or the text is the doubled-apostrophe form of the
-string cut at `nextBreakpoint`'s piece boundaries with, in front of each piece, nothing or exactly the separator
-`'` newline indent `+ '` (in front of the first piece: the opening apostrophe, possibly after a blank or the newline+indent),
-and `' ` at the end.  No character of the string is lost, duplicated or altered, wherever the breaks fall. -/
-theorem C07_breakLongStr_exact (st : PState) (s : List Char) :
-    (∃ lead, (lead = [] ∨ lead = [' ']) ∧ (breakLongStr st s).text = st.text ++ lead ++ ['\''] ++ escQ s ++ ['\''])
-    ∨ (∃ first seps, (first = ['\''] ∨ first = [' ', '\''] ∨ first = breakSepFirst st.indent2)
+theorem wrap_indent2 (st : PState) (s : List Char) : (wrap st s).indent2 = st.indent2 := by
+  unfold wrap; simp only []; split <;> simp [emit]
+
+theorem wrap_openParen (st : PState) :
+    (wrap st openParen).text = st.text ++ openParen ∨ (wrap st openParen).text = st.text ++ newlinePiece st.indent2 ++ openParen := by
+  have hs : ∀ b, strip b openParen = openParen := by intro b; simp [openParen, strip]
+  unfold wrap
+  simp only [hs]
+  split
+  · right; simp [emit, PState.text]
+  · left; simp [emit, PState.text]
+
+/-- `breakLongStr_paren`, for every state (line length, indent, position), every string and both values of `paren`, character
+for character: either the literal is printed in one piece `'…'` (after at most one blank), or the text is the
+doubled-apostrophe form of the string cut at `nextBreakpoint`'s piece boundaries with, in front of each piece, nothing or
+exactly the separator `'` newline indent `+ '` (in front of the first piece: the opening apostrophe, possibly after a blank
+or the newline+indent), closed by `' ` — or, when `paren` is set, the same between `( ` (possibly on a new line) and `' )`.
+No character of the string is lost, duplicated or altered, wherever the breaks fall. -/
+theorem C07_breakLongStr_exact (st : PState) (s : List Char) (paren : Bool) :
+    (∃ lead, (lead = [] ∨ lead = [' ']) ∧ (breakLongStr st s paren).text = st.text ++ lead ++ ['\''] ++ escQ s ++ ['\''])
+    ∨ (∃ opn cls first seps,
+        ((opn = [] ∧ cls = ['\'', ' ']) ∨
+         (paren = true ∧ (opn = openParen ∨ opn = newlinePiece st.indent2 ++ openParen) ∧ cls = ['\'', ' ', ')']))
+        ∧ (first = ['\''] ∨ first = [' ', '\''] ∨ first = breakSepFirst st.indent2)
         ∧ (first :: seps).length = (splitDots (escQ s)).length
         ∧ (∀ x ∈ seps, x = [] ∨ x = breakSep st.indent2)
-        ∧ (breakLongStr st s).text = st.text ++ weave (first :: seps) (splitDots (escQ s)) ++ ['\'', ' ']) := by
+        ∧ (breakLongStr st s paren).text = st.text ++ opn ++ weave (first :: seps) (splitDots (escQ s)) ++ cls) := by
   unfold breakLongStr
   simp only []
   split
@@ -509,13 +525,32 @@ theorem C07_breakLongStr_exact (st : PState) (s : List Char) :
       have := splitDots_eq_nil _ hp
       simp [this] at hlong
     | cons p ps =>
-      obtain ⟨first, hfirst, htext, hind⟩ := maybeBreak_true st p.length
-      obtain ⟨seps, hlen, hall, ht⟩ := breakPieces_weave ps (raw (maybeBreak st p.length true) p)
-      refine ⟨first, seps, hfirst, by simp [hlen], ?_, ?_⟩
-      · intro x hx
-        have := hall x hx
-        rwa [raw_indent2, hind] at this
-      · simp only [breakPieces, text_raw, ht, htext, weave, List.append_assoc]
+      by_cases hpar : splitParen st (p :: ps) paren = true
+      · have hparen : paren = true := by
+          simp only [splitParen, Bool.and_eq_true] at hpar; exact hpar.1
+        simp only [hpar, if_true]
+        obtain ⟨first, hfirst, htext, hind⟩ := maybeBreak_true (wrap st openParen) p.length
+        obtain ⟨seps, hlen, hall, ht⟩ := breakPieces_weave ps (raw (maybeBreak (wrap st openParen) p.length true) p)
+        rw [wrap_indent2] at hind hfirst
+        rcases wrap_openParen st with ho | ho
+        · refine ⟨openParen, _, first, seps, Or.inr ⟨hparen, Or.inl rfl, rfl⟩, hfirst, by simp [hlen], ?_, ?_⟩
+          · intro x hx
+            have := hall x hx
+            rwa [raw_indent2, hind] at this
+          · simp only [breakPieces, text_raw, ht, htext, ho, weave, List.append_assoc]
+        · refine ⟨newlinePiece st.indent2 ++ openParen, _, first, seps, Or.inr ⟨hparen, Or.inr rfl, rfl⟩, hfirst, by simp [hlen], ?_, ?_⟩
+          · intro x hx
+            have := hall x hx
+            rwa [raw_indent2, hind] at this
+          · simp only [breakPieces, text_raw, ht, htext, ho, weave, List.append_assoc]
+      · simp only [hpar]
+        obtain ⟨first, hfirst, htext, hind⟩ := maybeBreak_true st p.length
+        obtain ⟨seps, hlen, hall, ht⟩ := breakPieces_weave ps (raw (maybeBreak st p.length true) p)
+        refine ⟨[], _, first, seps, Or.inl ⟨rfl, rfl⟩, hfirst, by simp [hlen], ?_, ?_⟩
+        · intro x hx
+          have := hall x hx
+          rwa [raw_indent2, hind] at this
+        · simp [breakPieces, text_raw, ht, htext, weave, List.append_assoc]
 
 /-- the pieces woven with empty separators are the string itself: dropping the separators of `C07_breakLongStr_exact`
 gives back the (apostrophe-doubled) literal, whose scanner value is the source string (`C07_string_roundtrip`) -/
@@ -533,5 +568,7 @@ example : (run { linelen := 10, indent2 := 4, curpos := 9 } [W "abc", R " ", W "
     = "\n    abc + \n    de".toList := by decide
 example : (breakLongStr { linelen := 12, indent2 := 2, curpos := 8 } "ab.cd.ef".toList).text
     = " 'ab.'\n  + 'cd.ef' ".toList := by decide
+example : (breakLongStr { linelen := 14, indent2 := 2, curpos := 6 } "ab.cd.ef".toList true).text
+    = "( 'ab.'\n  + 'cd.ef' )".toList := by decide
 
 end StepModel.Express
